@@ -555,11 +555,23 @@ def nfw_extend(rng, case):
     starts reading NFW_draw at the satellite's own index)"""
     H = len(case['halo']['hmass'])
     if case['flavor'] != 'exact':
-        case['halo']['hmass'] = (10 ** rng.uniform(11.5, 14.2, H)).tolist()
+        case['halo']['hmass'] = (10 ** rng.uniform(12.0, 14.0, H)).tolist()
+    else:
+        case['halo']['hmass'] = rng.choice([1e13, 1e15, 1e15], H).tolist()
     case['halo']['hsigma3d'] = rng.uniform(100, 600, H).tolist()
     case['halo']['hc'] = rng.uniform(3, 12, H).tolist()
     case['halo']['hrvir'] = rng.uniform(0.2, 2.5, H).tolist()
     for T, d in case['tracers'].items():
+        # enough satellites per tracer: getPointsOnSphere is only memory safe with >= Nthread points per tracer
+        if case['flavor'] == 'exact':
+            d['kappa'] = 0.0
+            d['ic'] = float(rng.choice([1.0, 0.5]))
+            if T == 'LRG':
+                d['logM_cut'] = 12.0
+        else:
+            d['logM1'] = float(rng.uniform(12.3, 13.2))
+            d['kappa'] = float(rng.uniform(0.0, 0.5))
+            d['logM_cut'] = float(rng.uniform(11.5, 12.5))
         if rng.random() < 0.6:
             d['f_sigv'] = float(rng.choice([0.0, 0.5, 1.0]))
         if T == 'ELG' and rng.random() < 0.5:
@@ -618,3 +630,32 @@ def expected_nfw_counts(case, arr, keep_cent):
     for (i, t), n in zip(owner, draws):
         cnt[i, t] = n
     return cnt, means
+
+
+_POINTS_SAFE = None
+
+
+def nfw_points_safe():
+    """does getPointsOnSphere loop over exactly as many blocks as it built boundaries for?  (Before its repair it
+    built min(Nthread, nPoints) + 1 boundaries and looped over Nthread blocks: out-of-bounds reads and writes —
+    observed as a segmentation fault — whenever a tracer has fewer than Nthread satellites.)  Read from the
+    source, so that a run against an older tree does not execute undefined behaviour in this process."""
+    global _POINTS_SAFE
+    if _POINTS_SAFE is None:
+        import ast
+        import inspect
+        import textwrap
+        try:
+            f = getattr(G.getPointsOnSphere, 'py_func', G.getPointsOnSphere)
+            fd = ast.parse(textwrap.dedent(inspect.getsource(f))).body[0]
+            nb = None      # number of boundaries: third argument of linspace
+            nl = None      # prange argument
+            for n in ast.walk(fd):
+                if isinstance(n, ast.Call) and ast.unparse(n.func).endswith('linspace') and len(n.args) == 3:
+                    nb = ast.unparse(n.args[2]).replace(' ', '')
+                if isinstance(n, ast.For) and isinstance(n.iter, ast.Call) and 'prange' in ast.unparse(n.iter.func):
+                    nl = ast.unparse(n.iter.args[0]).replace(' ', '')
+            _POINTS_SAFE = nb is not None and nl is not None and nb in (nl + '+1', '1+' + nl)
+        except Exception:   # noqa: BLE001
+            _POINTS_SAFE = False
+    return _POINTS_SAFE
